@@ -4,6 +4,8 @@ package validate
 
 import (
 	"encoding/json"
+	"strconv"
+	"strings"
 
 	"github.com/go-openapi/analysis"
 	"github.com/go-openapi/loads"
@@ -28,4 +30,13 @@ func verifNewAnalyzer(ops map[string]map[string]*spec.Operation) *analysis.Spec 
 	sw := &spec.Swagger{}
 	verifFillPaths(sw, ops)
 	return analysis.New(sw)
+}
+
+func verifJSONNumberInt(x int64) json.Number { return json.Number(strconv.FormatInt(x, 10)) }
+func verifJSONNumberFloat(f float64) json.Number {
+	lit := strconv.FormatFloat(f, 'f', -1, 64)
+	if !strings.Contains(lit, ".") {
+		lit += ".0"
+	}
+	return json.Number(lit)
 }
